@@ -571,6 +571,20 @@ var scenarios = []scenario{
 		c.snapshotStep(c.nodes[1])
 		c.crash(1, true)
 	}, 3, false},
+	{"leader-loses-its-quorum-right-after-the-target-acknowledged-timeout-now", func(c *simCluster) {
+		// the target has acknowledged timeoutNow (the leader now expects a new term within moments), but its vote requests
+		// reach nobody; the leader loses contact with its quorum and steps down in its own term: the transfer did not succeed
+		c.elect(1)
+		c.replicate(1)
+		c.doClient(c.nodes[1], []entryType{entryUpdate})
+		c.replicate(1)
+		c.transfer(1, 3)
+		for k := 0; k < 4; k++ { // the request to node 3 and its answer
+			c.deliverAll(func(m *simMsg) bool { return m.kind == rpcTimeoutNow })
+		}
+		// node 3 campaigns, nobody hears it
+		c.loseQuorum(1)
+	}, 3, true},
 	{"transfer-times-out-with-an-action-pending", func(c *simCluster) {
 		// two demotions requested at once; a transfer to a node that never answers starts before the first
 		// commits, so the second is postponed; when the transfer times out it must be taken up again
